@@ -88,3 +88,41 @@ Example c02_lemma_B_nonvacuous :
   stmt_ok s && sshape s && colshape s && sel_tables_syntactic s && env_ok env0 = true
   /\ spec_pairs "" s = ["<default>.t2.y>s3.out1.c2"; "s1.t1.x>s3.out1.c0"; "u1{<default>.t2,s1.t1}>s3.out1.c1"].
 Proof. split; vm_compute; reflexivity. Qed.
+
+(** * Lemma B, step 5a (partial): a SELECT with WHERE c IN (sub-query) (Tree/LemmaB5a.v, 1 700 lines).
+    The sub-query's tables are read, its holder is composed into the statement's holder (shared tables are stored once,
+    with the sub-query's alias labels), and it contributes no end-to-end column pair - as the specification says.  Proved
+    for arbitrary trivia, any number of items and tables in both scopes, shared tables under equal or different aliases,
+    under the executable syntactic guard [wherein1_shape] (the conditions of steps 1-4 for both scopes; no unresolved column
+    in the sub-query; K-C02-8 and K-C02-5 across scopes in executable form).  NOT yet proved: that [colshape] implies
+    [wherein1_shape] (checked on 16 instances), INSERT column lists, nested WHERE. *)
+From SV Require Import Tree.LemmaB5a.
+
+Theorem c02_exact_on_select_where_in_partial : forall noise e s,
+  noise_ok noise = true -> env_ok e = true -> stmt_ok s = true -> wherein1_shape s = true ->
+  script_pairs e false [] [r_stmt noise s] = spec_pairs (e_cfg e) s.
+Proof. exact lemma_B_wherein1_restricted. Qed.
+Print Assumptions c02_exact_on_select_where_in_partial.
+
+(** * Lemma B, step 5c (partial): a derived table (Tree/LemmaB5cPaths.v, Tree/LemmaB5c.v, 1 900 lines).
+    Part P is generalised from bipartite flows to any ranked (layered, acyclic) flow set: the reported pairs are the ends of
+    the maximal chains; a chain that ends in a sub-query column (a column of the derived table that the outer query does not
+    select) contributes nothing.  With it: INSERT / CTAS / VIEW over SELECT items FROM (SELECT items' FROM base tables) d -
+    any number of inner tables joined any way, inner items qualified, unqualified (unresolved) or aliased, outer items d.c
+    or c, dead ends, any trivia - reports exactly the specified pairs (composition by substitution).
+    The unguarded [lemma_B_statement] is REFUTED by a rendering artefact: with empty trivia two different sub-queries can
+    have the same raw text ("(selectaasbfromt)"), and sub-query nodes are compared by raw text; the real parser always
+    leaves whitespace between keyword tokens, so this is not a defect of the implementation; the repair is the
+    executable guard [sq_raw_distinct].  NOT yet proved: several relations in FROM next to a derived table, nesting,
+    INSERT column lists with derived tables, the link from [colshape] to [one_derived_shape]. *)
+From SV Require Import Tree.LemmaB5cPaths Tree.LemmaB5c.
+
+Theorem c02_exact_on_one_derived_table_partial : forall noise e s,
+  noise_ok noise = true -> env_ok e = true -> one_derived_shape s = true ->
+  script_pairs e false [] [r_stmt noise s] = spec_pairs (e_cfg e) s.
+Proof. exact lemma_B_one_derived_restricted. Qed.
+Print Assumptions c02_exact_on_one_derived_table_partial.
+
+Theorem c02_lemma_B_statement_needs_distinct_subquery_text : ~ lemma_B_statement.
+Proof. exact lemma_B_statement_refuted_5c. Qed.
+Print Assumptions c02_lemma_B_statement_needs_distinct_subquery_text.
